@@ -85,12 +85,15 @@ func TestC19_DecisionTable(t *testing.T) {
 	n := 0
 	for _, disable := range []bool{false, true} {
 		for _, enforceLoopback := range []bool{false, true} {
-			for _, configured := range []bool{true, false} {
+			// configured passwords: an ordinary one, and ones in which white space is part of
+			// (or all of) the secret; "" = none configured (a random one is generated)
+			for _, cfgPw := range []string{"s3cret-pw", "", " ", "\n", " pw ", "pw\n"} {
+				configured := cfgPw != ""
 				conf := &config.Root{}
 				conf.Dashboard.DisableAuthn = disable
 				conf.Dashboard.EnableLoopbackAuthn = enforceLoopback
 				if configured {
-					conf.Dashboard.RootPassword = wos.EnvString("s3cret-pw")
+					conf.Dashboard.RootPassword = wos.EnvString(cfgPw)
 				}
 				// a handler whose login page has never been rendered: wrong passwords (empty,
 				// absent, arbitrary) are wrong from the first request on
@@ -113,7 +116,7 @@ func TestC19_DecisionTable(t *testing.T) {
 				}
 				h := web.New(nil, conf, nil)
 				other := web.New(nil, conf, nil) // "another process": same configuration, own session key
-				password := "s3cret-pw"
+				password := cfgPw
 				if !configured {
 					password = withGeneratedPassword(func() { c19Login(h, "8.8.8.8:1", "x", "GET") })
 					if password == "" {
@@ -125,7 +128,8 @@ func TestC19_DecisionTable(t *testing.T) {
 					pw    string
 					right bool
 				}{{password, true}, {"", false}, {password[:len(password)-1], false}, {password + "x", false}, {password + "\x00", false}, {strings.ToUpper(password), strings.ToUpper(password) == password},
-					{" " + password, false}, {"wrong", false}, {strings.Repeat("a", 200), false}}
+					{" " + password, false}, {"wrong", false}, {strings.Repeat("a", 200), false},
+					{strings.TrimSpace(password), strings.TrimSpace(password) == password}, {password + "\n", false}}
 				var goodCookies []*http.Cookie
 				for _, g := range guesses {
 					for _, a := range []string{"8.8.8.8:1", "127.0.0.1:5"} {
